@@ -9,6 +9,7 @@ what the induction hypothesis gives for the rest.
 set_option linter.unusedSimpArgs false
 namespace Verif.Proofs.JsString
 open Verif.JsStrBase Verif.Spec.JsStringSem Verif.Model.JsString
+variable {cf : Bool}
 
 /-- bytes that are ordinary characters for the decoder under every quote and for the model loop -/
 def Bland (x : Nat) : Prop := x < 128 ∧ x ≠ 92 ∧ x ≠ 10 ∧ x ≠ 13 ∧ x ≠ 36 ∧ x ≠ 39 ∧ x ≠ 34 ∧ x ≠ 96 ∧ x ≠ 60
@@ -34,12 +35,12 @@ theorem scriptEnd_eq : scriptEnd = 47 :: scriptTail := rfl
 theorem bland_scriptTail : ∀ x ∈ scriptTail, Bland x := by
   intro x hx; simp [scriptTail] at hx; unfold Bland; omega
 
-theorem guard_append_right {p l : List Nat} (h : Guard (p ++ l) = true) : Guard l = true := by
+theorem guard_append_right {p l : List Nat} (h : Guard cf (p ++ l) = true) : Guard cf l = true := by
   have := guard_drop h p.length; simpa using this
 
 /-- induction hypothesis of the simulation: all bodies of length ≤ n -/
-def IH (m : Bool) (qi q : Nat) (n : Nat) : Prop :=
-  ∀ l, l.length ≤ n → ∀ w, Guard l = true → decBody m qi l = some w → decBody m q (repA q false l) = some w
+def IH (cf m : Bool) (qi q : Nat) (n : Nat) : Prop :=
+  ∀ l, l.length ≤ n → ∀ w, Guard cf l = true → decBody m qi l = some w → decBody m q (repA q false l) = some w
 
 theorem prefix_split {p r : List Nat} (h : p.isPrefixOf r = true) : ∃ r', r = p ++ r' := by
   rw [List.isPrefixOf_iff_prefix] at h
@@ -49,7 +50,7 @@ theorem prefix_split {p r : List Nat} (h : p.isPrefixOf r = true) : ∃ r', r = 
 /-- a raw ASCII byte other than backslash, LF, CR, given that the rest of the body is valid -/
 theorem sim_raw {m : Bool} {qi q : Nat} (cx : Ctx m qi q) {an : Bool} {c : Nat} {r v' : List Nat}
     (hc : c ≠ 92) (h128 : c < 128) (h10 : c ≠ 10) (h13 : c ≠ 13)
-    (hg : Guard r = true) (hv : decBody m qi r = some v') (ih : IH m qi q r.length) :
+    (hg : Guard cf r = true) (hv : decBody m qi r = some v') (ih : IH cf m qi q r.length) :
     decBody m q (repA q an (c :: r)) = some (c :: v') := by
   have hq := cx.hq
   have hqi := cx.hqi
@@ -103,7 +104,7 @@ theorem sim_raw {m : Bool} {qi q : Nat} (cx : Ctx m qi q) {an : Bool} {c : Nat} 
             simp only [List.drop_succ_cons, List.drop_zero] at hr''
             rw [hr'', scriptEnd_eq]; rfl
         subst hr
-        have hg' : Guard r'' = true := by
+        have hg' : Guard cf r'' = true := by
           have := guard_drop hg 9; simpa [scriptTail] using this
         -- input
         have hin : decBody m qi (92 :: 47 :: (scriptTail ++ r'')) = (decBody m qi r'').map ((47 :: scriptTail) ++ ·) := by
@@ -128,7 +129,7 @@ theorem sim_raw {m : Bool} {qi q : Nat} (cx : Ctx m qi q) {an : Bool} {c : Nat} 
           obtain ⟨r'', hr''⟩ := prefix_split hp
           have hr : r = 47 :: (scriptTail ++ r'') := by rw [hr'', scriptEnd_eq]; rfl
           subst hr
-          have hg' : Guard (scriptTail ++ r'') = true := by
+          have hg' : Guard cf (scriptTail ++ r'') = true := by
             have := guard_drop hg 1; simpa using this
           have hin : decBody m qi (47 :: (scriptTail ++ r'')) = (decBody m qi (scriptTail ++ r'')).map ([47] ++ ·) := by
             apply dec_plain (by omega) _ (by omega) (by omega) (by omega) (by omega)
@@ -152,7 +153,7 @@ theorem sim_raw {m : Bool} {qi q : Nat} (cx : Ctx m qi q) {an : Bool} {c : Nat} 
 /-- a raw multi-byte character -/
 theorem sim_utf8 {m : Bool} {qi q : Nat} (cx : Ctx m qi q) {an : Bool} {c k : Nat} {r us v' : List Nat}
     (h128 : 128 ≤ c) (hu : utf8Step c r = some (us, k))
-    (hg : Guard (r.drop k) = true) (hv : decBody m qi (r.drop k) = some v') (ih : IH m qi q r.length) :
+    (hg : Guard cf (r.drop k) = true) (hv : decBody m qi (r.drop k) = some v') (ih : IH cf m qi q r.length) :
     decBody m q (repA q an (c :: r)) = some (us ++ v') := by
   obtain ⟨hk, hge, hind⟩ := utf8Step_take hu
   have hsplit : c :: r = (c :: r.take k) ++ r.drop k := by simp
@@ -170,7 +171,7 @@ theorem sim_utf8 {m : Bool} {qi q : Nat} (cx : Ctx m qi q) {an : Bool} {c k : Na
   rw [ih _ (by simp) v' hg hv]
   rfl
 
-theorem ih_mono {m : Bool} {qi q : Nat} {n k : Nat} (h : IH m qi q n) (hk : k ≤ n) : IH m qi q k :=
+theorem ih_mono {m : Bool} {qi q : Nat} {n k : Nat} (h : IH cf m qi q n) (hk : k ≤ n) : IH cf m qi q k :=
   fun l hl w hg hv => h l (Nat.le_trans hl hk) w hg hv
 
 /-- decomposition of a valid non-empty body -/
@@ -209,8 +210,8 @@ theorem esc_lc {lgc : Bool} {e : Nat} {r1 : List Nat} (h : 0 < lcLen e r1) :
 /-- a removed line continuation -/
 theorem sim_lc {m : Bool} {qi q : Nat} (cx : Ctx m qi q) {e : Nat} {r1 w : List Nat}
     (hk : ¬ (e = q ∨ e = 92 ∨ e = 114 ∨ (q ≠ 96 ∧ e = 110) ∨ (e = 48 ∧ ¬ r1.head?.any isOct)))
-    (hl : 0 < lcLen e r1) (hg : Guard (92 :: e :: r1) = true)
-    (hv : decBody m qi (92 :: e :: r1) = some w) (ih : IH m qi q (e :: r1).length) :
+    (hl : 0 < lcLen e r1) (hg : Guard cf (92 :: e :: r1) = true)
+    (hv : decBody m qi (92 :: e :: r1) = some w) (ih : IH cf m qi q (e :: r1).length) :
     decBody m q (repA q false (92 :: e :: r1)) = some w := by
   rw [dec_of_esc cx.hqi (esc_lc hl)] at hv
   rw [repA_cons]
@@ -229,10 +230,10 @@ theorem sim_lc {m : Bool} {qi q : Nat} (cx : Ctx m qi q) {e : Nat} {r1 w : List 
 
 /-- closing step for an escape sequence of the input that the decoder reads as `us`, consuming `k` bytes -/
 theorem finish_esc {m : Bool} {qi q : Nat} (cx : Ctx m qi q) {e k : Nat} {r1 us o w : List Nat}
-    (hv : decBody m qi (92 :: e :: r1) = some w) (hg : Guard (92 :: e :: r1) = true)
+    (hv : decBody m qi (92 :: e :: r1) = some w) (hg : Guard cf (92 :: e :: r1) = true)
     (hin : escStep (lg m qi) e r1 = some (us, k))
     (hout : ∀ t, decBody m q (o ++ t) = (decBody m q t).map (us ++ ·))
-    (ih : IH m qi q (e :: r1).length) :
+    (ih : IH cf m qi q (e :: r1).length) :
     decBody m q (o ++ repA q false ((e :: r1).drop k)) = some w := by
   rw [dec_of_esc cx.hqi hin] at hv
   cases hv' : decBody m qi ((e :: r1).drop k) with
@@ -241,19 +242,18 @@ theorem finish_esc {m : Bool} {qi q : Nat} (cx : Ctx m qi q) {e k : Nat} {r1 us 
     rw [hv'] at hv
     simp only [Option.map_some, Option.some.injEq] at hv
     subst hv
-    have hg' : Guard ((e :: r1).drop k) = true := guard_drop (l := e :: r1) (by simpa using guard_drop hg 1) k
+    have hg' : Guard cf ((e :: r1).drop k) = true := guard_drop (l := e :: r1) (by simpa using guard_drop hg 1) k
     rw [hout, ih _ (by simp) v' hg' hv']
     rfl
 
 /-- `\q`, `\\`, `\r`, and `\n` under a quote other than the backtick are kept -/
 theorem sim_keep {m : Bool} {qi q : Nat} (cx : Ctx m qi q) {e : Nat} {r1 w : List Nat}
     (hk : e = q ∨ e = 92 ∨ e = 114 ∨ (q ≠ 96 ∧ e = 110))
-    (hg : Guard (92 :: e :: r1) = true)
-    (hv : decBody m qi (92 :: e :: r1) = some w) (ih : IH m qi q (e :: r1).length) :
+    (hg : Guard cf (92 :: e :: r1) = true)
+    (hv : decBody m qi (92 :: e :: r1) = some w) (ih : IH cf m qi q (e :: r1).length) :
     decBody m q (repA q false (92 :: e :: r1)) = some w := by
   have hq := cx.hq
-  have hd := guard_esc hg
-  have h48 : e ≠ 48 := by intro h; subst h; simp [isDig] at hd
+  have h48 : e ≠ 48 := (guard_esc hg).1
   rw [repA_cons]
   have hs : step q false 92 (e :: r1) = ([92, e], 1, false) := by
     have : (e = q ∨ e = 92 ∨ e = 114 ∨ (q ≠ 96 ∧ e = 110) ∨ (e = 48 ∧ ¬ r1.head?.any isOct)) := by
@@ -270,6 +270,8 @@ theorem sim_keep {m : Bool} {qi q : Nat} (cx : Ctx m qi q) {e : Nat} {r1 w : Lis
   · -- the output quote: an identity escape on both sides
     have hid : e < 128 ∧ e ≠ 110 ∧ e ≠ 114 ∧ e ≠ 116 ∧ e ≠ 98 ∧ e ≠ 102 ∧ e ≠ 118 ∧ e ≠ 120 ∧ e ≠ 117 ∧ e ≠ 10 ∧ e ≠ 13 := by
       rcases hq with h' | h' | h' <;> omega
+    have hd : isDig e = false := by
+      rcases hq with h' | h' | h' <;> (rw [h, h']; rfl)
     exact finish_esc cx hv hg (esc_ident hid.1 hd hid.2) (fun t => dec_esc_ident hq hid.1 hd hid.2) ih
   · subst h
     exact finish_esc cx hv hg (esc_ident (by omega) rfl (by omega)) (fun t => dec_esc_ident hq (by omega) rfl (by omega)) ih
@@ -302,8 +304,8 @@ theorem hexV_lt8 {a : Nat} (h : isHex a = true) (h8 : a < 56) : hexV a = a - 48 
 
 /-- `\xHH` -/
 theorem sim_hex {m : Bool} {qi q : Nat} (cx : Ctx m qi q) {r1 w : List Nat}
-    (hg : Guard (92 :: 120 :: r1) = true)
-    (hv : decBody m qi (92 :: 120 :: r1) = some w) (ih : IH m qi q (120 :: r1).length) :
+    (hg : Guard cf (92 :: 120 :: r1) = true)
+    (hv : decBody m qi (92 :: 120 :: r1) = some w) (ih : IH cf m qi q (120 :: r1).length) :
     decBody m q (repA q false (92 :: 120 :: r1)) = some w := by
   have hq := cx.hq
   obtain ⟨us, k, v', hs, _, _⟩ := valid_cons hv
@@ -374,8 +376,8 @@ theorem sim_hex {m : Bool} {qi q : Nat} (cx : Ctx m qi q) {r1 w : List Nat}
 /-- `\t \f \v \b`, and `\n` under a backtick: written as the raw control character -/
 theorem sim_ctrl {m : Bool} {qi q : Nat} (cx : Ctx m qi q) {e : Nat} {r1 w : List Nat}
     (he : (q = 96 ∧ e = 110) ∨ e = 116 ∨ e = 102 ∨ e = 118 ∨ e = 98)
-    (hg : Guard (92 :: e :: r1) = true)
-    (hv : decBody m qi (92 :: e :: r1) = some w) (ih : IH m qi q (e :: r1).length) :
+    (hg : Guard cf (92 :: e :: r1) = true)
+    (hv : decBody m qi (92 :: e :: r1) = some w) (ih : IH cf m qi q (e :: r1).length) :
     decBody m q (repA q false (92 :: e :: r1)) = some w := by
   have hq := cx.hq
   rw [repA_cons]
@@ -415,11 +417,10 @@ theorem sim_ctrl {m : Bool} {qi q : Nat} (cx : Ctx m qi q) {e : Nat} {r1 w : Lis
 theorem sim_ident {m : Bool} {qi q : Nat} (cx : Ctx m qi q) {e : Nat} {r1 w : List Nat}
     (hk : ¬ (e = q ∨ e = 92 ∨ e = 114 ∨ (q ≠ 96 ∧ e = 110) ∨ (e = 48 ∧ ¬ r1.head?.any isOct)))
     (hl : lcLen e r1 = 0)
-    (he : e ≠ 120 ∧ e ≠ 110 ∧ e ≠ 116 ∧ e ≠ 102 ∧ e ≠ 118 ∧ e ≠ 98) (h117 : e ≠ 117)
-    (hg : Guard (92 :: e :: r1) = true)
-    (hv : decBody m qi (92 :: e :: r1) = some w) (ih : IH m qi q (e :: r1).length) :
+    (he : e ≠ 120 ∧ e ≠ 110 ∧ e ≠ 116 ∧ e ≠ 102 ∧ e ≠ 118 ∧ e ≠ 98) (h117 : e ≠ 117) (hd : isDig e = false)
+    (hg : Guard cf (92 :: e :: r1) = true)
+    (hv : decBody m qi (92 :: e :: r1) = some w) (ih : IH cf m qi q (e :: r1).length) :
     decBody m q (repA q false (92 :: e :: r1)) = some w := by
-  have hd := guard_esc hg
   obtain ⟨e1, e2, e3, e4, e5, e6⟩ := he
   have hoct : isOct e = false := by
     simp only [isDig, Bool.and_eq_false_imp, decide_eq_true_eq, decide_eq_false_iff_not] at hd
@@ -431,8 +432,8 @@ theorem sim_ident {m : Bool} {qi q : Nat} (cx : Ctx m qi q) {e : Nat} {r1 w : Li
     by_cases hh : r1.head? = some 10 <;> simp [lcLen, hh] at hl
   have h92 : e ≠ 92 := fun h => hk (Or.inr (Or.inl h))
   have h114 : e ≠ 114 := fun h => hk (Or.inr (Or.inr (Or.inl h)))
-  have hg1 : Guard (e :: r1) = true := by simpa using guard_drop hg 1
-  have hg2 : Guard r1 = true := by simpa using guard_drop hg 2
+  have hg1 : Guard cf (e :: r1) = true := by simpa using guard_drop hg 1
+  have hg2 : Guard cf r1 = true := by simpa using guard_drop hg 2
   rw [repA_cons]
   have hs : step q false 92 (e :: r1) = ([], 0, false) := by
     simp only [step, if_true, escM, if_neg hk]
@@ -599,8 +600,8 @@ theorem units_small {n : Nat} (h : n < 65536) : units n = [n] := by simp [units,
 theorem sim_uni_kept {m : Bool} {qi q : Nat} (cx : Ctx m qi q) {p r2 us w : List Nat}
     (hp : ∀ x ∈ p, Inert q x)
     (hesc : ∀ (lgc : Bool) (t : List Nat), escStep lgc 117 (p ++ t) = some (us, 1 + p.length))
-    (hg : Guard (92 :: 117 :: (p ++ r2)) = true)
-    (hv : decBody m qi (92 :: 117 :: (p ++ r2)) = some w) (ih : IH m qi q (117 :: (p ++ r2)).length) :
+    (hg : Guard cf (92 :: 117 :: (p ++ r2)) = true)
+    (hv : decBody m qi (92 :: 117 :: (p ++ r2)) = some w) (ih : IH cf m qi q (117 :: (p ++ r2)).length) :
     decBody m q ([92, 117] ++ repA q false ((117 :: (p ++ r2)).drop 1)) = some w := by
   have hq := cx.hq
   have hdrop : (117 :: (p ++ r2)).drop (1 + p.length) = r2 := by
@@ -621,8 +622,8 @@ theorem sim_uniTail {m : Bool} {qi q : Nat} (cx : Ctx m qi q) {p ds r2 us w : Li
     (hp : ∀ x ∈ p, Inert q x)
     (hesc : ∀ (lgc : Bool) (t : List Nat), escStep lgc 117 (p ++ t) = some (us, 1 + p.length))
     (hus : us = units (hexNat ds)) (hlt : hexNat ds ≤ 0x10FFFF)
-    (hg : Guard (92 :: 117 :: (p ++ r2)) = true)
-    (hv : decBody m qi (92 :: 117 :: (p ++ r2)) = some w) (ih : IH m qi q (117 :: (p ++ r2)).length)
+    (hg : Guard cf (92 :: 117 :: (p ++ r2)) = true)
+    (hv : decBody m qi (92 :: 117 :: (p ++ r2)) = some w) (ih : IH cf m qi q (117 :: (p ++ r2)).length)
     (hstep : step q false 92 (117 :: (p ++ r2)) = uniTail q false ds (1 + p.length)) :
     decBody m q (repA q false (92 :: 117 :: (p ++ r2))) = some w := by
   have hq := cx.hq
@@ -699,8 +700,8 @@ theorem step_uni {q : Nat} {r1 : List Nat} (hq : IsQ q) : step q false 92 (117 :
 
 /-- `\uHHHH` and `\u{H…}` -/
 theorem sim_uni {m : Bool} {qi q : Nat} (cx : Ctx m qi q) {r1 w : List Nat}
-    (hg : Guard (92 :: 117 :: r1) = true)
-    (hv : decBody m qi (92 :: 117 :: r1) = some w) (ih : IH m qi q (117 :: r1).length) :
+    (hg : Guard cf (92 :: 117 :: r1) = true)
+    (hv : decBody m qi (92 :: 117 :: r1) = some w) (ih : IH cf m qi q (117 :: r1).length) :
     decBody m q (repA q false (92 :: 117 :: r1)) = some w := by
   have hq := cx.hq
   obtain ⟨us, k, v', hs, _, _⟩ := valid_cons hv
@@ -737,5 +738,218 @@ theorem sim_uni {m : Bool} {qi q : Nat} (cx : Ctx m qi q) {r1 w : List Nat}
       congr 1
       simp; omega
 
+
+/-! ## legacy octal escapes -/
+
+theorem octStep_eq {e : Nat} {r1 : List Nat} (he : isOct e = true) :
+    (octStep e r1).1 = (octParse e r1).1 ∧ (octStep e r1).2 + 1 = (octParse e r1).2 := by
+  simp only [isOct, Bool.and_eq_true, decide_eq_true_eq] at he
+  unfold octStep octParse
+  cases r1 with
+  | nil => simp
+  | cons d2 r2 =>
+    simp only
+    by_cases h2 : isOct d2 = true
+    · simp only [h2, if_true]
+      have h2' := h2
+      simp only [isOct, Bool.and_eq_true, decide_eq_true_eq] at h2'
+      cases r2 with
+      | nil => simp
+      | cons d3 r3 =>
+        simp only
+        by_cases h3 : isOct d3 = true
+        · by_cases h51 : e ≤ 51
+          · rw [if_pos ⟨h51, h3⟩, if_pos ⟨by omega, h3⟩]
+            simp only [isOct, Bool.and_eq_true, decide_eq_true_eq] at h3
+            simp only
+            refine ⟨?_, trivial⟩
+            have : (e - 48) * 64 = (e - 48) * 8 * 8 := by omega
+            rw [this, Nat.add_mul]
+          · rw [if_neg (fun h => h51 h.1), if_neg (fun h => h51 (by omega))]
+            simp
+        · rw [if_neg (fun h => h3 h.2), if_neg (fun h => h3 h.2)]
+          simp
+    · simp [h2]
+
+/-- a legacy octal escape read by the decoder (first digit `1`–`7`) -/
+theorem esc_oct {e : Nat} {r1 : List Nat} (he : isOct e = true) (h48 : e ≠ 48) :
+    escStep true e r1 = some ([(octParse e r1).1], (octParse e r1).2) := by
+  obtain ⟨h1, h2⟩ := octStep_eq (r1 := r1) he
+  have he' := he
+  simp only [isOct, Bool.and_eq_true, decide_eq_true_eq] at he'
+  have hd : isDig e = true := by simp [isDig]; omega
+  have hne : e ≠ 110 ∧ e ≠ 114 ∧ e ≠ 116 ∧ e ≠ 98 ∧ e ≠ 102 ∧ e ≠ 118 ∧ e ≠ 120 ∧ e ≠ 117 ∧ ¬ 56 ≤ e := by omega
+  obtain ⟨a1, a2, a3, a4, a5, a6, a7, a8, a9⟩ := hne
+  simp only [escStep]
+  simp [hd, h48, h1, a1, a2, a3, a4, a5, a6, a7, a8, a9]
+  omega
+
+theorem esc_oct_strict {e : Nat} {r1 us : List Nat} {k : Nat} (he : isOct e = true) (h48 : e ≠ 48)
+    (h : escStep false e r1 = some (us, k)) : False := by
+  have he' := he
+  simp only [isOct, Bool.and_eq_true, decide_eq_true_eq] at he'
+  have hd : isDig e = true := by simp [isDig]; omega
+  have hne : e ≠ 110 ∧ e ≠ 114 ∧ e ≠ 116 ∧ e ≠ 98 ∧ e ≠ 102 ∧ e ≠ 118 ∧ e ≠ 120 ∧ e ≠ 117 ∧ ¬ 56 ≤ e := by omega
+  obtain ⟨a1, a2, a3, a4, a5, a6, a7, a8, a9⟩ := hne
+  simp only [escStep] at h
+  simp [hd, h48, a1, a2, a3, a4, a5, a6, a7, a8, a9] at h
+
+
+theorem step_oct {q : Nat} {e : Nat} {r1 : List Nat} (hq : IsQ q) (he : isOct e = true) (h48 : e ≠ 48) :
+    step q false 92 (e :: r1) = octM q false e r1 := by
+  have he' := he
+  simp only [isOct, Bool.and_eq_true, decide_eq_true_eq] at he'
+  have hk : ¬ (e = q ∨ e = 92 ∨ e = 114 ∨ (q ≠ 96 ∧ e = 110) ∨ (e = 48 ∧ ¬ r1.head?.any isOct)) := by
+    rcases hq with h | h | h <;> omega
+  have hl : lcLen e r1 = 0 := by
+    have : e ≠ 10 ∧ e ≠ 13 ∧ e ≠ 226 := by omega
+    simp [lcLen, this.1, this.2.1, this.2.2]
+  have hne : e ≠ 120 ∧ e ≠ 117 := by omega
+  simp only [step, if_true, escM, if_neg hk]
+  simp [hl, hne.1, hne.2, he]
+
+/-- legacy octal escapes `\1`…`\377` (first digit not `0`) -/
+theorem sim_oct {m : Bool} {qi q : Nat} (cx : Ctx m qi q) (hcf : CaseC m qi q → cf = true) {e : Nat} {r1 w : List Nat}
+    (he : isOct e = true) (h48 : e ≠ 48)
+    (hg : Guard cf (92 :: e :: r1) = true)
+    (hv : decBody m qi (92 :: e :: r1) = some w) (ih : IH cf m qi q (e :: r1).length) :
+    decBody m q (repA q false (92 :: e :: r1)) = some w := by
+  have hq := cx.hq
+  have he' := he
+  simp only [isOct, Bool.and_eq_true, decide_eq_true_eq] at he'
+  -- the input is only valid in legacy mode
+  obtain ⟨us, k, v', hs, _, _⟩ := valid_cons hv
+  rw [decStep_bsl cx.hqi] at hs
+  have hli : lg m qi = true := by
+    cases h : lg m qi with
+    | true => rfl
+    | false => rw [h] at hs; exact (esc_oct_strict he h48 hs).elim
+  have hin : escStep (lg m qi) e r1 = some ([(octParse e r1).1], (octParse e r1).2) := by
+    rw [hli]; exact esc_oct he h48
+  rw [repA_cons, step_oct hq he h48]
+  have hb := octParse_bounds (r1 := r1) he
+  have hdropk : ∀ k', List.drop k' (e :: r1) = (e :: r1).drop k' := fun _ => rfl
+  unfold octM
+  simp only [Bool.false_eq_true, false_and, or_false]
+  split
+  · -- `\74` is kept: only possible when the output quote allows legacy escapes
+    rename_i h74
+    obtain ⟨hnum, hk2⟩ := h74
+    have hlo : lg m q = true := by
+      cases h : lg m q with
+      | true => rfl
+      | false =>
+        exfalso
+        have hc := hcf (caseC_of hli h)
+        have hgate := (guard_esc hg).2 hc
+        rcases hb with ⟨hk1, _⟩ | ⟨_, d2, hd2, ho2, hval⟩ | ⟨hk3, _⟩
+        · omega
+        · simp only [isOct, Bool.and_eq_true, decide_eq_true_eq] at ho2
+          have : e = 55 ∧ d2 = 52 := by omega
+          obtain ⟨rfl, rfl⟩ := this
+          simp [gate, hd2] at hgate
+        · omega
+    rcases hb with ⟨hk1, _⟩ | ⟨_, d2, hd2, ho2, hval⟩ | ⟨hk3, _⟩
+    · omega
+    · cases r1 with
+      | nil => simp at hd2
+      | cons x r2 =>
+        simp only [List.head?_cons, Option.some.injEq] at hd2
+        subst hd2
+        rw [hk2]
+        have : (92 :: e :: List.take (2 - 1) (x :: r2)) = [92, e, x] := by simp
+        rw [this]
+        refine finish_esc cx hv hg (by rw [hin, hk2]) (fun t => ?_) ih
+        have : [92, e, x] ++ t = 92 :: e :: (x :: t) := rfl
+        rw [this, dec_of_esc hq (us := [(octParse e (x :: r2)).1]) (k := 2)]
+        · rfl
+        · rw [hlo, esc_oct he h48]
+          simp only [isOct, Bool.and_eq_true, decide_eq_true_eq] at ho2
+          have h1 : e = 55 ∧ x = 52 := by omega
+          obtain ⟨rfl, rfl⟩ := h1
+          have e1 : octParse 55 (52 :: t) = (60, 2) := by
+            cases t <;> simp [octParse, isOct]
+          have e2 : octParse 55 (52 :: r2) = (60, 2) := by
+            cases r2 <;> simp [octParse, isOct]
+          rw [e1, e2]
+    · omega
+  · rename_i h74
+    have hnum255 : (octParse e r1).1 ≤ 255 ∧ 1 ≤ (octParse e r1).1 := by
+      rcases hb with ⟨_, hval⟩ | ⟨_, d2, _, ho2, hval⟩ | ⟨_, h51, d2, d3, _, _, ho2, ho3, hval⟩
+      · omega
+      · simp only [isOct, Bool.and_eq_true, decide_eq_true_eq] at ho2; omega
+      · simp only [isOct, Bool.and_eq_true, decide_eq_true_eq] at ho2 ho3; omega
+    split
+    · -- rewritten as `\xHH`
+      rename_i hx
+      have hk3 : (octParse e r1).2 = 3 := by
+        rcases hb with ⟨hk1, hval⟩ | ⟨hk2, d2, _, ho2, hval⟩ | ⟨hk3, _⟩
+        · exfalso; rcases hx with h | h | ⟨h, _⟩ <;> omega
+        · exfalso
+          simp only [isOct, Bool.and_eq_true, decide_eq_true_eq] at ho2
+          rcases hx with h | h | ⟨h, _⟩
+          · exact h74 ⟨h, hk2⟩
+          · omega
+          · omega
+        · exact hk3
+      refine finish_esc cx hv hg (by rw [hin, hk3]) (fun t => ?_) ih
+      exact dec_hexOf hq (by omega)
+    · rename_i hx
+      rw [if_neg (by omega)]
+      split
+      · -- written as a two-byte escape
+        rename_i hesc
+        refine finish_esc cx hv hg hin (fun t => ?_) ih
+        rcases hesc with h | h | h | ⟨_, h⟩ | ⟨_, h⟩
+        · rw [h, show escOf 92 = 92 from rfl]; exact dec_esc_ident hq (by omega) rfl (by omega)
+        · rw [h]
+          have : escOf q = q := by rcases hq with h' | h' | h' <;> (subst h'; rfl)
+          rw [this]
+          apply dec_esc_ident hq
+          · rcases hq with h' | h' | h' <;> omega
+          · rcases hq with h' | h' | h' <;> (subst h'; rfl)
+          · rcases hq with h' | h' | h' <;> omega
+        · rw [h]; exact dec_esc_r hq
+        · rw [h]; exact dec_esc_n hq
+        · rw [h, show escOf 36 = 36 from rfl]; exact dec_esc_ident hq (by omega) rfl (by omega)
+      · -- written raw
+        rename_i hraw
+        refine finish_esc cx hv hg hin (fun t => ?_) ih
+        by_cases h10 : (octParse e r1).1 = 10
+        · have hq96 : q = 96 := by
+            by_cases h : q = 96
+            · exact h
+            · exact absurd (Or.inr (Or.inr (Or.inr (Or.inl ⟨h, h10⟩)))) hraw
+          subst hq96
+          rw [h10]; exact dec_lf_tmpl
+        · apply dec_plain (by omega) (fun h => hraw (Or.inr (Or.inl h))) (fun h => hraw (Or.inl h)) h10
+            (fun h => hraw (Or.inr (Or.inr (Or.inl h))))
+          rintro ⟨h1, h2, _⟩
+          exact hraw (Or.inr (Or.inr (Or.inr (Or.inr ⟨h2, h1⟩))))
+
+
+/-- `\8` and `\9` (sloppy mode): the backslash is dropped -/
+theorem sim_89 {m : Bool} {qi q : Nat} (cx : Ctx m qi q) {e : Nat} {r1 w : List Nat}
+    (he : e = 56 ∨ e = 57)
+    (hg : Guard cf (92 :: e :: r1) = true)
+    (hv : decBody m qi (92 :: e :: r1) = some w) (ih : IH cf m qi q (e :: r1).length) :
+    decBody m q (repA q false (92 :: e :: r1)) = some w := by
+  have hq := cx.hq
+  have hg2 : Guard cf r1 = true := by simpa using guard_drop hg 2
+  obtain ⟨us, k, v', hst, hv', hw⟩ := valid_cons hv
+  rw [decStep_bsl cx.hqi] at hst
+  have hs : step q false 92 (e :: r1) = ([], 0, false) := by
+    rcases he with rfl | rfl <;> rcases hq with h | h | h <;> simp [step, escM, lcLen, isOct, h]
+  rw [repA_cons, hs]
+  simp only [List.nil_append, List.drop_zero]
+  have hin : us = [e] ∧ k = 1 := by
+    cases hl : lg m qi with
+    | false => rw [hl] at hst; rcases he with rfl | rfl <;> simp [escStep, isDig] at hst
+    | true =>
+      rw [hl] at hst
+      rcases he with rfl | rfl <;> (simp [escStep, isDig] at hst; exact ⟨hst.1.symm, hst.2.symm⟩)
+  obtain ⟨rfl, rfl⟩ := hin
+  subst hw
+  exact sim_raw cx (by omega) (by omega) (by omega) (by omega) hg2 hv' (ih_mono ih (by simp))
 
 end Verif.Proofs.JsString
